@@ -130,6 +130,7 @@ func (k *KerberosProxy) forward(realm string, data []byte) (resp []byte, err err
 	}
 
 	replies := make(chan []byte, len(kdcs))
+	pending := 0
 	for i := range kdcs {
 		conn, err := net.Dial(kdcs[i].Proto, kdcs[i].Host)
 
@@ -152,16 +153,25 @@ func (k *KerberosProxy) forward(realm string, data []byte) (resp []byte, err err
 		}
 
 		kdcs[i].Conn = conn
+		pending++
 		go awaitReply(conn, kdcs[i].Proto == "udp", replies)
 	}
 
+	if pending == 0 {
+		return nil, fmt.Errorf("cannot reach any kdc for realm %s", realm)
+	}
+
 	reply := <-replies
+	pending--
 
 	// close all the connections and return the first reply
 	for kdc := range kdcs {
 		if kdcs[kdc].Conn != nil {
 			kdcs[kdc].Conn.Close()
 		}
+	}
+	// every started reader sends exactly once: collect the outstanding ones
+	for ; pending > 0; pending-- {
 		<-replies
 	}
 
